@@ -632,8 +632,11 @@ pub fn families(tier: Tier, for_c11: bool) -> Vec<Family> {
 }
 
 pub fn run_families(run: &mut Run, for_c11: bool) -> Stats {
-    let tier = run.tier;
-    let fams = families(tier, for_c11);
+    let fams = families(run.tier, for_c11);
+    run_family_list(run, fams)
+}
+
+pub fn run_family_list(run: &mut Run, fams: Vec<Family>) -> Stats {
     let prop = run.prop.clone();
     let mut total = Stats::new();
     let mut fam_json = Vec::new();
@@ -679,6 +682,15 @@ pub fn run_c10(run: &mut Run) -> Stats {
 
 pub fn run_c11_conc(run: &mut Run) -> Stats {
     run_families(run, true)
+}
+
+/// Concurrent part of C12 / C20: the hint-sampling and abort families, judged for `prop`.
+pub fn run_monitor_families(prop: &str, tier: Tier) -> (Stats, serde_json::Value) {
+    let mut run = Run::new(prop, "sched_mc", tier);
+    let all = families(tier, false);
+    let fams: Vec<Family> = all.into_iter().filter(|f| f.name == "raw/hints" || f.name == "raw/abort").collect();
+    let st = run_family_list(&mut run, fams);
+    (st, run.extra.get("families").cloned().unwrap_or(json!([])))
 }
 
 pub fn replay(case: &serde_json::Value, prop: &str) -> i32 {
